@@ -25,12 +25,19 @@ EXPLANATION = (
     "is re-pointed to it; the caller passes a copy of the frame; (R-16.3) "
     "zero_momentum is consulted and the reset lies between draw and write; "
     "(R-16.4) the reported kinetic energy is computed from the final written "
-    "velocities; (R-16.5) draws come from the job stream (shared with C07)."
+    "velocities; (R-16.5) draws come from the job stream (shared with C07); "
+    "(R-16.8) the variance clause as a chain of symbolic identities: the single draw is "
+    "normal(loc=0, scale=sigma_v) with sigma_v^2 * beta * mass == 1 (monomial algebra on the "
+    "expression), every engine constructor sets beta with beta * kB * T == 1, kB equals the "
+    "Boltzmann constant in the engine's energy unit (table: kJ/mol, kcal/mol, hartree, eV; "
+    "relative tolerance 1e-4), the draw is given self.beta, and between the draw and the writer "
+    "the velocities are only re-centred or divided once by the engine's unit factor "
+    "(LAMMPS real units: 48.888...), never rescaled otherwise."
 )
 NOT_DECIDED = (
-    "that each component has variance k_B*T/m in the engine's own units (unit "
-    "constants such as kb, the LAMMPS factor 48.888..., CP2K mass conversion); "
-    "Gaussianity (NumPy)"
+    "the mass tables (CP2K amu -> electron masses, LAMMPS data file) and that the user's LAMMPS input "
+    "really uses `units real`; Gaussianity and independence of the components (NumPy); ASE delegates the "
+    "draw to MaxwellBoltzmannDistribution(temperature_K=...) which is trusted"
 )
 ASSUMPTIONS = [
     "reset_momentum modifies its first argument in place and returns it; kinetic_energy does not modify its arguments (read in cp2k.py)",
@@ -323,11 +330,185 @@ def r16_caller(ctx):
             ctx.bad("R-16.2", c, "prepare_shooting_point hands a frame of the old path itself to modify_velocities (which re-points its config)")
 
 
+# ---------------------------------------------------------------- R-16.8 variance = kT/m (symbolic)
+def _mono(e, env):
+    """Monomial (coeff, {symbol: power}) of a product/quotient expression; None otherwise."""
+    from fractions import Fraction
+    if isinstance(e, ast.Constant) and isinstance(e.value, (int, float)) and not isinstance(e.value, bool):
+        return (Fraction(str(e.value)), {})
+    if isinstance(e, ast.Name):
+        if e.id in env:
+            return env[e.id]
+        return (Fraction(1), {e.id: 1})
+    if isinstance(e, ast.Attribute) and isinstance(e.value, ast.Name) and e.value.id == "self":
+        return (Fraction(1), {"self." + e.attr: 1})
+    if isinstance(e, ast.BinOp) and isinstance(e.op, (ast.Mult, ast.Div)):
+        a, b = _mono(e.left, env), _mono(e.right, env)
+        if a is None or b is None:
+            return None
+        sg = 1 if isinstance(e.op, ast.Mult) else -1
+        if sg == -1 and b[0] == 0:
+            return None
+        pw = dict(a[1])
+        for k, v in b[1].items():
+            pw[k] = pw.get(k, 0) + sg * v
+        return (a[0] * b[0] if sg == 1 else a[0] / b[0], {k: v for k, v in pw.items() if v != 0})
+    if isinstance(e, ast.BinOp) and isinstance(e.op, ast.Pow) and isinstance(e.right, ast.Constant) and isinstance(e.right.value, int):
+        a = _mono(e.left, env)
+        if a is None:
+            return None
+        return (a[0] ** e.right.value, {k: v * e.right.value for k, v in a[1].items()})
+    return None
+
+
+KB = {  # Boltzmann constant in the energy unit of the engine (CODATA 2018), relative tolerance 1e-4
+    GROMACS: (0.0083144626, "kJ/(mol K)"),
+    LAMMPS: (0.0019872043, "kcal/(mol K)"),
+    CP2K: (3.1668116e-6, "hartree/K"),
+    ASE: (8.6173333e-5, "eV/K"),
+}
+UNIT_SCALE = {LAMMPS: (48.88821290839617, "sqrt(kcal/g) per (Angstrom/fs)")}
+
+
+def r168(ctx, impls):
+    """Each Cartesian component ~ N(0, kT/m): (1) the draw is normal(loc=0, scale=sigma) with
+    sigma^2 * beta * mass == 1 symbolically; (2) beta * kB * T == 1 in every engine constructor;
+    (3) kB is the Boltzmann constant in the engine's energy unit; (4) between the draw and the
+    writer the velocities are only re-centred (reset_momentum) or divided by the engine's unit
+    factor (LAMMPS real units) - no other scaling."""
+    from fractions import Fraction
+    rid = "R-16.8"
+    tree = ctx.tree
+    d = tree.func(ENGBASE, "EngineBase.draw_maxwellian_velocities")
+    params = [a.arg for a in d.args.args]
+    env = {}
+    sig2 = None
+    for st in walk_local(d):
+        if isinstance(st, ast.Assign) and isinstance(st.targets[0], ast.Name):
+            v = st.value
+            if isinstance(v, ast.Call) and last_name(v) == "sqrt" and len(v.args) == 1:
+                mm = _mono(v.args[0], env)
+                if mm is not None and st.targets[0].id == "sigma_v":
+                    sig2 = (mm, st)
+                continue
+            mm = _mono(v, env)
+            if mm is not None:
+                env[st.targets[0].id] = mm
+    if sig2 is None:
+        raise AnalysisError("R-16.8: sigma_v = sqrt(<product>) not found in draw_maxwellian_velocities")
+    (c, pw), st = sig2
+    pw = dict(pw)
+    pw["beta"] = pw.get("beta", 0) + 1
+    pw["mass"] = pw.get("mass", 0) + 1
+    pw = {k: v for k, v in pw.items() if v != 0}
+    if c == 1 and not pw:
+        ctx.ok(rid, st, "draw_maxwellian_velocities: sigma_v^2 * beta * mass == 1 (variance kT/m)")
+    else:
+        ctx.bad(rid, st, f"draw_maxwellian_velocities: sigma_v^2 * beta * mass = {c} * {pw or 1}, not 1: the variance of a velocity component is not kT/m", construct="sigma_v " + short(st, 60))
+    normals = [c_ for c_ in walk_local(d) if isinstance(c_, ast.Call) and last_name(c_) == "normal"]
+    if len(normals) != 1:
+        raise AnalysisError("R-16.8: exactly one normal() draw expected in draw_maxwellian_velocities")
+    nm = normals[0]
+    loc, scale = kwarg(nm, "loc", 0), kwarg(nm, "scale", 1)
+    if isinstance(loc, ast.Constant) and loc.value == 0 and isinstance(scale, ast.Name) and scale.id == "sigma_v":
+        ctx.ok(rid, nm, "the draw is normal(loc=0, scale=sigma_v): zero mean, standard deviation sigma_v")
+    else:
+        ctx.bad(rid, nm, f"the draw is normal(loc={short(loc, 20) if loc is not None else '?'}, scale={short(scale, 20) if scale is not None else '?'}): not zero-mean with standard deviation sigma_v", construct="normal() arguments " + short(nm, 60))
+    # (2)+(3) constructors
+    for m, cname, f in impls:
+        if m.rel in (AMS,):
+            continue
+        cls = tree.cls(m.rel, cname)
+        init = next((s for s in cls.body if isinstance(s, FUNC) and s.name == "__init__"), None)
+        if init is None:
+            raise AnalysisError(f"R-16.8: {cname}.__init__ not found")
+        beta = kbv = None
+        for st in walk_local(init):
+            if isinstance(st, ast.Assign) and isinstance(st.targets[0], ast.Attribute) and isinstance(st.targets[0].value, ast.Name) and st.targets[0].value.id == "self":
+                if st.targets[0].attr == "_beta":
+                    beta = st
+                if st.targets[0].attr in ("kb", "boltzmann"):
+                    kbv = st
+        if beta is None:
+            raise AnalysisError(f"R-16.8: {cname}.__init__ does not set self._beta")
+        mm = _mono(beta.value, {})
+        kname = "self.kb" if m.rel != TURTLE else "self.boltzmann"
+        if mm is not None:
+            c, pw = mm
+            pw = dict(pw)
+            pw[kname] = pw.get(kname, 0) + 1
+            pw["self.temperature"] = pw.get("self.temperature", 0) + 1
+            pw = {k: v for k, v in pw.items() if v != 0}
+        if mm is not None and c == 1 and not pw:
+            ctx.ok(rid, beta, f"{cname}: beta * kB * T == 1")
+        else:
+            ctx.bad(rid, beta, f"{cname}: `{short(beta, 60)}` is not 1 / (kB * T): the velocities are generated at another temperature", construct=f"{cname}: {short(beta, 60)}")
+        if m.rel in KB:
+            ref, unit = KB[m.rel]
+            if kbv is None or not (isinstance(kbv.value, ast.Constant) and isinstance(kbv.value.value, float)):
+                raise AnalysisError(f"R-16.8: {cname}.kb is not a literal")
+            if abs(kbv.value.value - ref) <= 1e-4 * ref:
+                ctx.ok(rid, kbv, f"{cname}: kB = {kbv.value.value} is the Boltzmann constant in {unit}")
+            else:
+                ctx.bad(rid, kbv, f"{cname}: kB = {kbv.value.value} is not the Boltzmann constant in {unit} ({ref}): temperature of the generated velocities is off by the ratio", construct=f"{cname}.kb = {kbv.value.value}")
+    # (4) between draw and writer
+    for m, cname, f in impls:
+        if m.rel in (AMS, ASE):
+            continue
+        draws = [c_ for c_ in walk_local(f) if isinstance(c_, ast.Call) and last_name(c_) == "draw_maxwellian_velocities"]
+        if not draws:
+            ctx.bad(rid, f, f"{cname}.modify_velocities does not draw from draw_maxwellian_velocities")
+            continue
+        dr = draws[0]
+        b = dr.args[2] if len(dr.args) > 2 else kwarg(dr, "beta")
+        fl = flow_of(f)
+        srcs = fl.sources(b, fl.cfg.node_of(dr)) if b is not None else []
+        okb = b is not None and (path_of(b) == "self.beta" or (srcs and all((k in ("free", "param") and str(x) == "self.beta") or (k == "expr" and isinstance(n_, ast.AST) and ast.unparse(n_) == "self.beta") for k, n_, _, x in srcs)))
+        if okb:
+            ctx.ok(rid, dr, f"{cname}: the draw uses the engine's own beta")
+        else:
+            ctx.bad(rid, dr, f"{cname}: draw_maxwellian_velocities is not given self.beta ({short(b, 30) if b is not None else 'missing'})", construct=f"{cname}: beta argument of the draw")
+        # scalings of the velocity name after the draw
+        st = enclosing_stmt(dr)
+        vname = st.targets[0].elts[0].id if isinstance(st, ast.Assign) and isinstance(st.targets[0], ast.Tuple) and isinstance(st.targets[0].elts[0], ast.Name) else None
+        if vname is None:
+            raise AnalysisError(f"R-16.8: {cname}: result of the draw is not unpacked into a name")
+        want = UNIT_SCALE.get(m.rel)
+        seen_scale = False
+        for x in walk_local(f):
+            if x.lineno <= st.lineno if hasattr(x, "lineno") else True:
+                continue
+            scal = None
+            if isinstance(x, ast.AugAssign) and isinstance(x.target, ast.Name) and x.target.id == vname and isinstance(x.op, (ast.Mult, ast.Div)):
+                scal = (x.op, x.value, x)
+            if isinstance(x, ast.Assign) and isinstance(x.targets[0], ast.Name) and x.targets[0].id == vname and isinstance(x.value, ast.BinOp) and isinstance(x.value.op, (ast.Mult, ast.Div)) and vname in ast.unparse(x.value):
+                other = x.value.right if (isinstance(x.value.left, ast.Name) and x.value.left.id == vname) else x.value.left
+                scal = (x.value.op, other, x)
+            if scal is None:
+                continue
+            op, val, node = scal
+            num = None
+            if isinstance(val, ast.Constant) and isinstance(val.value, (int, float)):
+                num = float(val.value)
+            elif isinstance(val, ast.Name):
+                for dd, _ in fl.rd(val.id, fl.cfg.node_of(node)):
+                    if isinstance(getattr(dd, "value", None), ast.Constant) and isinstance(dd.value.value, (int, float)):
+                        num = float(dd.value.value)
+            if want is not None and num is not None and isinstance(op, ast.Div) and abs(num - want[0]) <= 1e-6 * want[0] and not seen_scale:
+                seen_scale = True
+                ctx.ok(rid, node, f"{cname}: velocities divided once by {want[0]} ({want[1]})")
+            else:
+                ctx.bad(rid, node, f"{cname}: the drawn velocities are rescaled by `{short(node, 50)}`" + (f" (expected only a division by {want[0]})" if want else " although this engine's units need no conversion") + ": the variance is no longer kT/m in the engine's units", construct=f"{cname}: velocity scaling {short(node, 50)}")
+        if want is not None and not seen_scale:
+            ctx.bad(rid, dr, f"{cname}: the drawn velocities are not converted to the engine's velocity unit (division by {want[0]}, {want[1]})", construct=f"{cname}: unit conversion missing")
+
+
 def run(ctx):
     ctx.rule("R-16.1", "positions, box and identities written are exactly those read from the dumped frame; only velocities are regenerated", floor=14)
     ctx.rule("R-16.2", "the regenerated frame goes to a fresh file under exe_dir; system.config re-pointed; caller passes a copy", floor=10)
     ctx.rule("R-16.3", "momentum reset under zero_momentum between draw and write (external gmx refuses False)", floor=5)
     ctx.rule("R-16.4", "reported kinetic energy computed from the velocities that are written; system.ekin set to it", floor=5)
+    ctx.rule("R-16.8", "variance clause, symbolically: normal(0, sigma) with sigma^2*beta*mass == 1; beta*kB*T == 1 per engine; kB in the engine's energy unit; no rescaling between draw and writer except the engine's unit factor", floor=14)
     ctx.rule("R-16.7", "the frame index of the configuration that is dumped before velocity regeneration is tested with `is None`, never by truthiness (index 0 is a frame)", floor=5)
     ctx.rule("R-16.6", "positional role agreement in velocity regeneration: (dek, kin_new), (vel, sigma_v), (xyz, vel, box, names) and writer arguments sit where the callee returns / expects them", floor=15)
     impls = implementations(ctx.tree)
@@ -350,6 +531,7 @@ def run(ctx):
     if armed < 5:
         raise AnalysisError(f"C16: only {armed} modify_velocities implementations found (expected 5)")
     ctx.attempt(r16_caller, ctx)
+    ctx.attempt(r168, ctx, impls)
     from .shared import role_agreement, frame_index_truthiness
     ctx.attempt(frame_index_truthiness, ctx, "R-16.7", [GROMACS, CP2K, LAMMPS, TURTLE, ASE, ENGBASE], " (the whole multi-frame file is dumped instead of frame 0: velocities are regenerated for another frame)")
     P16 = ("modify_velocities", "draw_maxwellian_velocities", "_prepare_shooting_point", "kinetic_energy", "reset_momentum", "prepare_shooting_point")
@@ -358,6 +540,20 @@ def run(ctx):
 
 
 VARIANTS = [
+    B("c16-sigma-times-mass", ENGBASE, "            sigma_v = np.sqrt(kbt * (1 / mass))", "            sigma_v = np.sqrt(kbt * mass)", "R-16.8", control=True),
+    B("c16-sigma-without-sqrt-argument-inverse", ENGBASE, "            kbt = 1.0 / beta\n", "            kbt = beta\n", "R-16.8"),
+    B("c16-draw-variance-as-scale", ENGBASE, "vel = self.rgen.normal(loc=0.0, scale=sigma_v, size=(npart, dim))", "vel = self.rgen.normal(loc=0.0, scale=sigma_v**2, size=(npart, dim))", "R-16.8"),
+    B("c16-draw-nonzero-mean", ENGBASE, "vel = self.rgen.normal(loc=0.0, scale=sigma_v, size=(npart, dim))", "vel = self.rgen.normal(loc=sigma_v, scale=sigma_v, size=(npart, dim))", "R-16.8"),
+    B("c16-lammps-beta-precedence", LAMMPS, "        self._beta = 1 / (self.kb * self.temperature)", "        self._beta = 1 / self.kb * self.temperature", "R-16.8"),
+    B("c16-gromacs-kb-decimal-slip", GROMACS, "        self.kb = 0.0083144621  # kJ/(K*mol)", "        self.kb = 0.083144621  # kJ/(K*mol)", "R-16.8"),
+    B("c16-lammps-scale-multiplied", LAMMPS, "        vel /= scale\n", "        vel *= scale\n", "R-16.8"),
+    B("c16-lammps-scale-dropped", LAMMPS, "        vel /= scale\n", "", "R-16.8"),
+    B("c16-cp2k-extra-scaling", CP2K, "        vel, _ = self.draw_maxwellian_velocities(vel, mass, beta)\n", "        vel, _ = self.draw_maxwellian_velocities(vel, mass, beta)\n        vel *= 0.5\n", "R-16.8"),
+    B("c16-turtle-inverse-beta", TURTLE, "        vel, _ = self.draw_maxwellian_velocities(vel, mass, beta)\n", "        vel, _ = self.draw_maxwellian_velocities(vel, mass, 1 / beta)\n", "R-16.8"),
+    K("c16-keep-sigma-single-quotient", ENGBASE, "            sigma_v = np.sqrt(kbt * (1 / mass))", "            sigma_v = np.sqrt(1.0 / (beta * mass))"),
+    K("c16-keep-lammps-scale-assign", LAMMPS, "        vel /= scale\n", "        vel = vel / scale\n"),
+    K("c16-keep-lammps-beta-two-quotients", LAMMPS, "        self._beta = 1 / (self.kb * self.temperature)", "        self._beta = 1.0 / self.kb / self.temperature"),
+    K("c16-keep-gromacs-kb-more-digits", GROMACS, "        self.kb = 0.0083144621  # kJ/(K*mol)", "        self.kb = 0.00831446262  # kJ/(K*mol)"),
     B("c16-dump-config-idx-truthiness", ENGBASE, "        if idx is None:\n            if pos_file != out_file:\n                self._copyfile(pos_file, out_file)\n        else:\n            logger.debug(\"Config: %s\", (config,))\n            self._extract_frame(pos_file, idx, out_file)\n", "        if idx:\n            logger.debug(\"Config: %s\", (config,))\n            self._extract_frame(pos_file, idx, out_file)\n        elif pos_file != out_file:\n            self._copyfile(pos_file, out_file)\n", "R-16.7", control=True, why="seeded C16_c"),
     K("c16-keep-dump-config-reordered", ENGBASE, "        if idx is None:\n            if pos_file != out_file:\n                self._copyfile(pos_file, out_file)\n        else:\n            logger.debug(\"Config: %s\", (config,))\n            self._extract_frame(pos_file, idx, out_file)\n", "        if idx is not None:\n            logger.debug(\"Config: %s\", (config,))\n            self._extract_frame(pos_file, idx, out_file)\n        elif pos_file != out_file:\n            self._copyfile(pos_file, out_file)\n"),
     B("c16-lammps-writer-args-swapped", LAMMPS, "        write_lammpstrj(conf_out, id_type, xyz, vel, box)", "        write_lammpstrj(conf_out, id_type, vel, xyz, box)", "R-16.6", control=True),
